@@ -233,8 +233,11 @@ def stepCaller (s : State) (t : Nat) (c : Nat) (e : Ev) : Option State :=
   | .chkNow, .now _ t' =>
     if s.lastAttempt + s.cfg.interval ≤ t' then some ({ s with lastAttempt := t' }.setC c { k with pc := .rcheck })
     else some (s.setC c (failTo k))
+  | .chkNow, .acq _ => doAcqI s c k       -- connected by another thread while waiting for accessLock: check passes
   | .rcheck, .now _ t' =>     -- read_is_connected: not connected; the attempt is recorded
     if s.isConn = false then some ({ s with lastAttempt := t' }.setC c { k with pc := .connecting }) else none
+  | .rcheck, .isconn _ v =>               -- read_is_connected returned True; its wrapper announces that, too late
+    if v = true ∧ s.isConn = false then some ({ s with isConn := true }.setC c k) else none
   | .rcheck, .acq _ => doAcqI s c k       -- read_is_connected returned True (on behalf of a communicate)
   | .rcheck, .ret _ res =>                -- read_is_connected returned True (doPoll)
     if k.kind = .poll ∧ res = result k then some (s.setC c { k with pc := .idle }) else none
